@@ -1,7 +1,7 @@
 (** Pinned statements of the C17 property theorems: compiled on every check, so a theorem cannot be
     weakened silently. *)
-From V Require Import Base.Util Gql.Ast Writer.Wop Ts.TsType Ts.TsDen C17.Sites C17.Model C17.Spec C17.Proofs C17.Full C17.Branches C17.Properties.
-From V Require Gen.C17_sites_gen C10.Model C10.Spec C01.Model C17.Denot.
+From V Require Import Base.Util Gql.Ast Writer.Wop Ts.TsType Ts.TsDen C17.Sites C17.Model C17.Spec C17.Proofs C17.PluginProofs C17.Table C17.Full C17.Branches C17.Properties.
+From V Require Gen.C17_sites_gen C10.Model C10.Spec C01.Model C05.Model C03.Model C17.Denot C17.CheckPerm C17.OpPerm.
 From Coq Require Import Permutation Sorting.Sorted.
 
 Check (C17_all_sites_accounted : forallb site_known Gen.C17_sites_gen.scanned_sites = true).
@@ -94,6 +94,49 @@ Check (C17_branching_hashset_id : forall fuel S F sels parent,
 Check (C17_branching_hashset_refuted : exists (pi pi' : oracle), is_oracle pi /\ is_oracle pi' /\
     branching_hashset pi 5 ex_schema [] ex_sels (s "Query") <> branching_hashset pi' 5 ex_schema [] ex_sels (s "Query")
     /\ exists l, branching_hashset pi 5 ex_schema [] ex_sels (s "Query") = C01.Model.Ok l /\ List.length l = 4%nat).
+Check (C17_sort_by_key_order_irrelevant : forall V (l l' : hmap V),
+  Permutation l l' -> NoDup (keys l) -> sort_leb key_leb l = sort_leb key_leb l').
+Check (C17_plugin_schema_addition_oracle_irrelevant : forall (p1 p2 p1' p2' : oracle) (exts : hmap xext),
+  is_oracle p1 -> is_oracle p2 -> is_oracle p1' -> is_oracle p2' -> NoDup (keys exts) ->
+  plugin_schema_addition p1 p2 exts = plugin_schema_addition p1' p2' exts).
+Check (C17_load_schema_extensions_lookup : forall (pi : oracle) (exts : hmap xext) k,
+  is_oracle pi -> NoDup (keys exts) ->
+  hm_get (load_schema_extensions pi [] exts) k =
+  match hm_get exts k with Some e => scalar_extension_of e | None => None end).
+Check (C17_get_required_files_spec : forall (pi : oracle) (loaded : hmap (list str)) x,
+  is_oracle pi ->
+  In x (get_required_files pi loaded) <->
+  (exists from imports, In (from, imports) loaded /\ In x imports) /\ hm_mem loaded x = false).
+Check (C17_get_required_files_oracle_irrelevant : forall (pi pi' : oracle) (loaded : hmap (list str)),
+  is_oracle pi -> is_oracle pi' ->
+  Permutation (get_required_files pi loaded) (get_required_files pi' loaded)
+  /\ NoDup (get_required_files pi loaded)).
+Check (C17_get_required_files_order_refuted : exists (loaded : hmap (list str)) (pi pi' : oracle), is_oracle pi /\ is_oracle pi' /\
+    get_required_files pi loaded <> get_required_files pi' loaded).
+Check (C17_check_verdict_permutation : forall doc doc',
+  Permutation doc doc' ->
+  NoDup (map C05.Model.tname (C17.CheckPerm.tdefs doc)) -> NoDup (map C05.Model.dname (C17.CheckPerm.ddefs doc)) ->
+  Permutation (C05.Model.check_doc doc) (C05.Model.check_doc doc')
+  /\ (C05.Model.check_doc doc = [] <-> C05.Model.check_doc doc' = [])).
+Check (C17_check_verdict_permutation_refuted : exists doc doc', Permutation doc doc' /\ NoDup (map C05.Model.tname (C17.CheckPerm.tdefs doc))
+                   /\ C05.Model.check_doc doc = [] /\ C05.Model.check_doc doc' <> []).
+Check (C17_resolve_no_extension_left : forall its out,
+  resolve_schema_extensions its = Ok out -> Forall (fun d => d_ext d = false) (idefs out)).
+Check (C17_skeleton_shape : forall (pi : oracle) (o : hmap scfg) (doc : list item) a,
+  print_skeleton pi o doc = Ok a ->
+  Forall (fun d => hm_get (ctx_local_names pi o doc) (dc_schema d) = Some (dc_local d)) a
+  /\ map dc_schema (filter (fun d => N.eqb (dc_section d) 4) a) = map d_name (type_defs doc)
+  /\ Forall (fun d => dc_local d = dc_schema d \/ dc_local d = tmp_prefix ++ dc_schema d) a).
+Check (C17_check_verdict_permutation_partial : forall doc doc',
+  C17.CheckPerm.unique_names doc = true -> Permutation doc doc' ->
+  Permutation (C05.Model.check_doc doc) (C05.Model.check_doc doc')
+  /\ (C05.Model.check_doc doc = [] <-> C05.Model.check_doc doc' = [])).
+Check (C17_check_verdict_permutation_full_refuted : ~ C17.CheckPerm.check_verdict_permutation_full).
+Check (C17_operation_check_schema_permutation : forall S S',
+  Permutation S S' ->
+  NoDup (map C03.Model.tname (C17.OpPerm.tdefs S)) -> NoDup (map C17.OpPerm.dname (C17.OpPerm.ddefs S)) ->
+  (List.length (C17.OpPerm.sdefs S) <= 1)%nat ->
+  forall D, C03.Model.check_operation_document S D = C03.Model.check_operation_document S' D).
 Print Assumptions C17_all_sites_accounted.
 Print Assumptions C17_known_sites_all_scanned.
 Print Assumptions C17_all_hash_files_accounted.
@@ -118,3 +161,16 @@ Print Assumptions C17_branch_order_spec.
 Print Assumptions C17_unique_first_occurrence.
 Print Assumptions C17_branching_hashset_id.
 Print Assumptions C17_branching_hashset_refuted.
+Print Assumptions C17_sort_by_key_order_irrelevant.
+Print Assumptions C17_plugin_schema_addition_oracle_irrelevant.
+Print Assumptions C17_load_schema_extensions_lookup.
+Print Assumptions C17_get_required_files_spec.
+Print Assumptions C17_get_required_files_oracle_irrelevant.
+Print Assumptions C17_get_required_files_order_refuted.
+Print Assumptions C17_check_verdict_permutation.
+Print Assumptions C17_check_verdict_permutation_refuted.
+Print Assumptions C17_resolve_no_extension_left.
+Print Assumptions C17_skeleton_shape.
+Print Assumptions C17_check_verdict_permutation_partial.
+Print Assumptions C17_check_verdict_permutation_full_refuted.
+Print Assumptions C17_operation_check_schema_permutation.
